@@ -42,4 +42,4 @@ Proof. exact track_pcm_last. Qed.
 Example c03_example :
   windows_spec [1; 3; 4] 11763 = [(2352, 4704); (7056, 2352); (9408, 2355)]
   /\ increasing [1; 3; 4] /\ 2352 * last [1; 3; 4] 0 <= 11763.
-Proof. cbn. lia. Qed.
+Proof. split; [vm_compute; reflexivity|]. split; [cbn [increasing]; lia|cbn [last]; lia]. Qed.
